@@ -48,7 +48,10 @@ def _one(ctx, i, rep=None):
     gen_ = G(r, 0.0, pskip=0.15, pws=0.0, pcomment=0.2)   # no ws= modifiers: keeps Arpeggio's eolterm/ws restore finding (C01) out
     gen_.lit_style = 'rich'
     g = gen_.grammar()
-    text = RP.pr_grammar(g)
+    variant = ctx.rng('litspelling', i).choice([0, 0, 0, 0, 1, 2, 3])
+    text = P.pr_variant(g, variant)
+    if variant:
+        ctx.count('grammars_with_escaped_literal_spelling')
     cfg = dict(skipws=r.random() < 0.9, auto_init_attributes=True, use_regexp_group=False, ignore_case=True,
                autokwd=r.random() < 0.5)
     try:
